@@ -9,7 +9,7 @@ RULE = ("control-point / coefficient vectors of length 0..8 with magnitudes up t
         "durations and stretch factors with 0.05 <= |k| <= 20; deriv/scale/stretch/add-constant on random vectors; solve / touches / "
         "extrema for degree <= 3 with a well-conditioned leading coefficient (>= 5% of the largest lower-order one), right-hand "
         "sides in and around the range on [0,1], roots not within 2e-3 of each other or (touches) of the interval ends; classes aimed at the closed forms (a non-leading "
-        "coefficient exactly zero, roots exactly at 0 and 1, double roots); a class of "
+        "coefficient exactly zero, roots exactly at 0 and 1, double roots) and at the monotonicity shortcuts (cubics whose slope reverses inside [0,1] with the same sign at both ends); a class of "
         "degree > 3 extrema (recorded finding D13). Non-trivial = vectors of length >= 2.")
 EXPLANATION = ("coefficients: |impl - exact| <= (2j+8) 2^-23 M_j with M_j the magnitude sum of the terms of coefficient j; values: "
                "(2n+8) 2^-23 sum M_j |u|^j; roots: the number of returned roots equals the number of certified sign-change boxes "
@@ -133,6 +133,26 @@ def cases(rng, tier):
             cub = [rnd_val(rng, mag), cs[0], f32(cs[1] / 2), f32(cs[2] / 3)]
             if kind != "double":
                 yield ("poly extrema %s" % hexcsv(cub), "aimed-extrema3")
+    # aimed at the monotonicity shortcuts of touches / extrema: cubics whose slope has the same sign at both ends of [0,1]
+    # and the opposite sign in between (Bezier control points up-down-up or down-up-down), right-hand sides taken in
+    # the reversal, on both sides of p(0) and p(1)
+    for i in range(n // 2 if tier == "thorough" else n // 8):
+        mag = rng.choice([1, 10, 1000])
+        sg = rng.choice([1, -1])
+        p0 = rng.uniform(-mag, mag)
+        a, b, c = (rng.uniform(0.2, 2.0) * mag for _ in range(3))
+        p1 = p0 + sg * a
+        p2 = p1 - sg * b
+        p3 = p2 + sg * c
+        cs = [f32(p0), f32(3 * (p1 - p0)), f32(3 * (p0 - 2 * p1 + p2)), f32(p3 - 3 * p2 + 3 * p1 - p0)]
+        if not well_conditioned(cs):
+            continue
+        vals = [sum(cf * (t / 64.0) ** j for j, cf in enumerate(cs)) for t in range(65)]
+        lo, hi = min(vals), max(vals)
+        for y in (f32(rng.uniform(lo, hi)), f32(rng.uniform(lo, hi)), f32(rng.uniform(min(vals[0], vals[-1]), max(vals[0], vals[-1])))):
+            yield ("poly touches %s %s" % (hexcsv(cs), fhex(y)), "aimed-touches-reversal")
+            yield ("poly solve %s %s" % (hexcsv(cs), fhex(y)), "aimed-solve-reversal")
+        yield ("poly extrema %s" % hexcsv(cs), "aimed-extrema-reversal")
     for i in range(60):
         cs = [rnd_val(rng, 100) for _ in range(rng.choice([5, 6, 8]))]
         yield ("poly extrema %s" % hexcsv(cs), "extrema-high")
